@@ -247,19 +247,5 @@ def run(ctx):
         ctx.r1('e', CS + 'verify_certificate_chain', Sink('CertificateVerifier::verify_certificate_chain', ['*::CertificateVerifier::verify_certificate_chain'], 'ok', per_item=False)) if False else None
 
     # ---- (f) pruning of open messages: strictly below the epoch being entered
-    dq = ctx.try_fn('f', AG + 'database::query::open_message::delete_open_message::DeleteOpenMessageQuery::below_epoch_threshold')
-    if dq is not None:
-        conds = ctx.sql_conditions(dq)
-        parsed = [parse_sql_comparison(t) for t, _ in conds]
-        inst = 'DeleteOpenMessageQuery::below_epoch_threshold: the SQL condition is `epoch < threshold` (strict)'
-        if conds and all(p is not None and p[1] == '<' for p in parsed):
-            R.ok('f', 'R6', inst, 'condition %r' % conds[0][0], dq.loc())
-        else:
-            R.violation('f', 'R6', inst, 'open_message:prune-strict', 'conditions %s parse to %s: open messages of the threshold epoch itself would be deleted, '
-                        'so a signed entity already certified in the current epoch can be re-opened and certified again after a restart' % (
-                            [t for t, _ in conds], parsed), dq.loc())
-        ctx.arg_origin('f', AG + 'database::repository::open_message_repository::OpenMessageRepository::clean_epoch',
-                       AG + 'database::query::open_message::delete_open_message::DeleteOpenMessageQuery::below_epoch_threshold', 0,
-                       require=['p#2'], desc='(threshold) <- epoch')
-        ctx.arg_origin('f', CS + 'inform_epoch', AG + 'database::repository::open_message_repository::OpenMessageRepository::clean_epoch', 1,
-                       require=['p#2'], desc='(threshold) <- the epoch being entered')
+    from props.shared import open_message_prune_rule
+    open_message_prune_rule(ctx, 'f', 'so a signed entity already certified in the current epoch can be re-opened and certified again after a restart')
